@@ -38,9 +38,10 @@ class Def(object):
         name = name or self.name
         binders = ''
         for f in extra_params:
-            binders += ' (%s : R -> R)' % f
+            binders += (' %s' % f) if f.startswith('(') else (' (%s : R -> R)' % f)
         for p in self.params:
-            binders += ' (%s : %s)' % (p, 'list R' if p in getattr(self, 'list_params', ()) else 'R')
+            ty = 'list R' if p in getattr(self, 'list_params', ()) else ('state' if p in getattr(self, 'state_vars', ()) else 'R')
+            binders += ' (%s : %s)' % (p, ty)
         body = ''
         for n, e in self.lets:
             body += '  let %s := %s in\n' % (n, ir.to_coq(e))
@@ -143,7 +144,7 @@ class Translator(object):
     def function(self, qualname, consts=None, capture=None, free_on_call=(), inline=(),
                  name=None, param_order=None, drop_params=(), callees=None, list_params=(),
                  skip_shape_returns=False, dict_list_params=None, tuple_params=None, test_overrides=None,
-                 vararg_len=None):
+                 vararg_len=None, state_params=(), methods=None):
         """consts: parameter/global name -> python constant (partial evaluation).
         capture: None (the return value) | ('assign', var, k[, unwrap_fn]) the k-th real-valued
         assignment to var (optionally unwrapping a call to unwrap_fn, e.g. 'ln')."""
@@ -153,6 +154,8 @@ class Translator(object):
         st.list_params = set(list_params)
         st.skip_shape_returns = skip_shape_returns
         st.test_overrides = dict(test_overrides or {})
+        st.state_params = set(state_params)
+        st.methods = dict(methods or {})
         for dname, keys in (dict_list_params or {}).items():
             for k in keys:
                 lp = '%s_%s' % (dname, k)
@@ -172,6 +175,11 @@ class Translator(object):
                 continue
             if consts and nm in consts:
                 st.env[nm] = _const_ir(consts[nm])
+            elif nm in st.state_params:
+                st.used.add(nm)
+                params.append(nm)
+                st.state_vars.append(nm)
+                st.env[nm] = ('var', nm)
             elif tuple_params and nm in tuple_params:
                 comps = []
                 for i in range(tuple_params[nm]):
@@ -188,7 +196,7 @@ class Translator(object):
                 v = st.fresh(nm)
                 params.append(v)
                 st.env[nm] = ('var', v)
-        if a.vararg is not None:
+        if a.vararg is not None and a.vararg.arg not in drop_params:
             if vararg_len is None:
                 raise Untranslatable('*%s needs a length' % a.vararg.arg, fn)
             comps = []
@@ -212,6 +220,7 @@ class Translator(object):
         h = hashlib.sha256(ast.get_source_segment(self.src, fn).encode()).hexdigest()
         d = Def(name or qualname.replace('.', '_'), params, st.lets, res, st.stats, h)
         d.list_params = set(st.list_params)
+        d.state_vars = list(st.state_vars)
         _prune(d)
         for lp in sorted(st.list_params):
             if ir.lifted(d.result, st.list_params) and (lp + '_elt') not in d.params:
@@ -252,6 +261,9 @@ class _State(object):
         self.skip_shape_returns = False
         self.test_overrides = {}
         self.dict_lists = []
+        self.state_params = set()
+        self.methods = {}
+        self.state_vars = []
         self.consts = consts
         self.env = {}
         self.lets = []
@@ -300,6 +312,18 @@ class _State(object):
                 if nm in SKIP_CALLS:
                     return None
                 f = s.value.func
+                if isinstance(f, ast.Attribute) and f.attr == 'pop' and isinstance(f.value, ast.Name) and \
+                        env.get(f.value.id, ('x',))[0] == 'var' and (env[f.value.id][1] in self.state_vars):
+                    cur = env[f.value.id][1]
+                    if not cur.endswith('_reduced'):
+                        nv = cur + '_reduced'
+                        if nv not in self.state_vars:
+                            self.state_vars.append(nv)
+                            self.used.add(nv)
+                            self.extra_params.append(nv)
+                        env[f.value.id] = ('var', nv)
+                    self.stats['dict_pops'] = self.stats.get('dict_pops', 0) + 1
+                    return None
                 if isinstance(f, ast.Attribute) and f.attr == 'append' and isinstance(f.value, ast.Name) \
                         and env.get(f.value.id, ('x',))[0] == 'tuple' and len(s.value.args) == 1:
                     cur = env[f.value.id]
@@ -568,6 +592,17 @@ class _State(object):
                 if isinstance(t, ast.Subscript) and isinstance(t.slice, ast.Call) and _dotted(t.slice.func) == 'np.isnan':
                     self.stats['nan_sanitise_skipped'] += 1
                     continue
+                if isinstance(t, ast.Attribute) and _dotted(t) is not None:
+                    try:
+                        n_before = len(self.lets)
+                        old = self.expr(t, env)
+                        v = self.expr(b.value, env)
+                        del self.lets[n_before:]
+                    except Untranslatable:
+                        return False
+                    if v == old:
+                        continue
+                    return False
                 if isinstance(t, ast.Subscript) and isinstance(t.slice, ast.Constant) and isinstance(t.slice.value, str):
                     try:
                         n_before = len(self.lets)
@@ -590,13 +625,15 @@ class _State(object):
     def cond(self, t, env):
         if isinstance(t, ast.BoolOp):
             vals = []
+            isand = isinstance(t.op, ast.And)
             for v in t.values:
                 if self.shape_query(v):
                     self.stats['shape_conditions_assumed_true'] = self.stats.get('shape_conditions_assumed_true', 0) + 1
                     vals.append(('const', True))
                 else:
                     vals.append(self.cond(v, env))
-            isand = isinstance(t.op, ast.And)
+                if vals[-1][0] == 'const' and bool(vals[-1][1]) != isand:
+                    break      # short circuit, as Python does
             out = None
             for v in vals:
                 if v[0] == 'const':
@@ -621,7 +658,8 @@ class _State(object):
                 # infinite case itself is outside the real-valued model (covered by the correspondence run)
                 self.stats['finite_vs_infinity_folded'] = self.stats.get('finite_vs_infinity_folded', 0) + 1
                 if a[0] == 'inf' and b[0] == 'inf':
-                    raise Untranslatable('comparison of two infinities', t)
+                    x, y = a[1], b[1]
+                    return ('const', {'<': x < y, '<=': x <= y, '>': x > y, '>=': x >= y, '==': x == y, '!=': x != y}[op])
                 if b[0] == 'inf':
                     lt = b[1] > 0      # a < +inf is true, a < -inf is false
                 else:
@@ -691,6 +729,13 @@ class _State(object):
                 return self.expr(n.value, env)
             if d is not None and d.startswith('self.') and d in self.consts:
                 return _const_ir(self.consts[d])
+            if d is not None and d.startswith('self.') and d[5:] in self.state_params:
+                nm = d[5:]
+                if nm not in self.state_vars:
+                    self.state_vars.append(nm)
+                    self.used.add(nm)
+                    self.extra_params.append(nm)
+                return ('var', nm)
             if d is not None and d.startswith('self.'):
                 key = d
                 if key in env:
@@ -737,6 +782,20 @@ class _State(object):
             return ('tuple', [self.expr(x, env) for x in n.elts])
         if isinstance(n, ast.Subscript):
             base = n.value
+            if isinstance(n.slice, ast.Constant) and isinstance(n.slice.value, str):
+                bd = _dotted(base)
+                if bd is not None and (bd in self.state_params or (bd.startswith('self.') and bd[5:] in self.state_params)):
+                    b = self.expr(base, env)
+                    return ('field', n.slice.value, b)
+                if bd is not None and bd.startswith('self.') and bd in self.consts and isinstance(self.consts[bd], dict):
+                    return _const_ir(self.consts[bd][n.slice.value])
+                if bd is not None and bd.startswith('self.'):
+                    key = '%s[%s]' % (bd, n.slice.value)
+                    if key not in env:
+                        v = self.fresh('%s_%s' % (bd[5:], n.slice.value))
+                        self.extra_params.append(v)
+                        env[key] = ('var', v)
+                    return env[key]
             if isinstance(n.slice, ast.Constant) and isinstance(n.slice.value, str) and isinstance(base, ast.Name):
                 key = '%s[%s]' % (base.id, n.slice.value)
                 if key not in env:
@@ -763,6 +822,9 @@ class _State(object):
             i = self.index_value(n.slice, env)
             if isinstance(i, int) and b[0] == 'tuple':
                 return b[1][i]
+            if i == 0 and i is not True and b[0] not in ('tuple', 'const'):
+                self.stats['shape_ops'] += 1
+                return b      # element 0 of a flattened scalar
             if i is True:
                 self.stats['masked_reads_of_all'] = self.stats.get('masked_reads_of_all', 0) + 1
                 return b     # x[mask] with a mask that is statically all-true (finite-entry model)
@@ -782,6 +844,8 @@ class _State(object):
     def call(self, n, env):
         d = _dotted(n.func)
         args = n.args
+        if d == 'copy.copy' and len(args) == 1:
+            return self.expr(args[0], env)
         # string helpers on constants (phase normalisation)
         if isinstance(n.func, ast.Attribute):
             recv = n.func.value
@@ -811,6 +875,10 @@ class _State(object):
             if meth in SHAPE_METHODS and (d is None or not d.startswith('np.')):
                 self.stats['shape_ops'] += 1
                 return self.expr(recv, env)
+        if d is None and isinstance(n.func, ast.Attribute) and isinstance(n.func.value, ast.Call) and \
+                _dotted(n.func.value.func) == 'super' and ('super.' + n.func.attr) in self.methods:
+            cname, npos = self.methods['super.' + n.func.attr]
+            return ('ucall', cname, (), [self.expr(a, env) for a in args[:npos]])
         if d is None:
             raise Untranslatable('call of a computed function', n)
         if d == 'len':
@@ -894,6 +962,8 @@ class _State(object):
             if v[0] == 'num' and v[1].denominator == 1:
                 return ('tuple', [('num', Fraction(i)) for i in range(int(v[1]))])
             raise Untranslatable('range of a non-constant', n)
+        if d == 'copy.copy' and len(args) == 1:
+            return self.expr(args[0], env)
         if d == 'LnPDF' and len(args) == 1:
             self.stats['shape_ops'] += 1
             return self.expr(args[0], env)
@@ -907,6 +977,11 @@ class _State(object):
             z = self.fold_affine(x, mu, s)
             return ('bin', '/', ('call', 'exp', [('neg', ('bin', '/', ('bin', '*', z, z), ir.num(2)))]),
                     ('bin', '*', s, ('call', 'sqrt', [('bin', '*', ir.num(2), ('pi',))])))
+        if d is not None and d.startswith('self.') and d[5:] in self.methods:
+            cname, npos = self.methods[d[5:]]
+            if len(args) < npos:
+                raise Untranslatable('call of %s with too few arguments' % d, n)
+            return ('ucall', cname, (), [self.expr(a, env) for a in args[:npos]])
         if d in self.callees:
             cname, extras, npos = self.callees[d]
             if len(args) != npos or n.keywords:
